@@ -570,6 +570,59 @@ func c02(x *mon.Ctx) {
 				_ = os.Remove(path)
 			}
 			x.Require("rot-file-replaced", 3, 0, 3)
+			// what a conversion returns is the caller's: a caller that extends the pool it was handed (its own extra anchor)
+			// must not change what a LATER conversion of the same configuration trusts — inline text, the same file, another
+			// file with the same content
+			for hi, how := range []string{"inline", "file", "other-file-same-content", "inline-then-file"} {
+				// roots no conversion of this process has seen before: the first conversion of a text matters
+				wa, wb := world.Honest(x.Rand(fmt.Sprint("rot-alias-a", hi)), world.HonestOpts{}), world.Honest(x.Rand(fmt.Sprint("rot-alias-b", hi)), world.HonestOpts{})
+				pa := filepath.Join(dir, "alias-a.pem")
+				pa2 := filepath.Join(dir, "alias-a-copy.pem")
+				_ = os.WriteFile(pa, wa.PKI.Root.PEM, 0o644)
+				_ = os.WriteFile(pa2, wa.PKI.Root.PEM, 0o644)
+				first := &ccpb.RootOfTrust{Cabundles: []string{string(wa.PKI.Root.PEM)}}
+				second := &ccpb.RootOfTrust{Cabundles: []string{string(wa.PKI.Root.PEM)}}
+				switch how {
+				case "file":
+					first, second = &ccpb.RootOfTrust{CabundlePaths: []string{pa}}, &ccpb.RootOfTrust{CabundlePaths: []string{pa}}
+				case "other-file-same-content":
+					first, second = &ccpb.RootOfTrust{CabundlePaths: []string{pa}}, &ccpb.RootOfTrust{CabundlePaths: []string{pa2}}
+				case "inline-then-file":
+					second = &ccpb.RootOfTrust{CabundlePaths: []string{pa}}
+				}
+				prob := ""
+				verdict := func(o *verify.Options, w *world.World) bool {
+					o.Getter = &world.Getter{R: map[string]world.Resp{}}
+					o.Now = &verify.TimeSet{PckCertChain: world.Epoch, TcbInfo: world.Epoch, QeIdentity: world.Epoch, PckCrl: world.Epoch, RootCaCrl: world.Epoch}
+					return verify.RawTdxQuote(w.Q.Bytes(), o) == nil
+				}
+				for round := 0; round < 3 && prob == ""; round++ {
+					o1, err1 := verify.RootOfTrustToOptions(first)
+					if err1 != nil || o1.TrustedRoots == nil {
+						prob = fmt.Sprintf("configuration refused: %v", err1)
+						break
+					}
+					a1, b1 := verdict(o1, wa), verdict(o1, wb)
+					o1.TrustedRoots.AddCert(wb.PKI.Root.Cert) // the caller's own business
+					o2, err2 := verify.RootOfTrustToOptions(second)
+					if err2 != nil || o2.TrustedRoots == nil {
+						prob = fmt.Sprintf("configuration refused: %v", err2)
+						break
+					}
+					a2, b2 := verdict(o2, wa), verdict(o2, wb)
+					switch {
+					case !a1 || (b1 && round == 0):
+						prob = fmt.Sprintf("round %d, first conversion: quote under the listed root accepted=%v, under the other root accepted=%v", round, a1, b1)
+					case !a2 || b2 || (b1 && round > 0):
+						prob = fmt.Sprintf("round %d: after an earlier caller added root B to the pool IT was handed, a fresh conversion of a configuration that lists root A only gives options under which the quote under A is accepted=%v and the quote under B is accepted=%v (fresh first conversion: B accepted=%v): conversions share their pool", round, a2, b2, b1)
+					}
+				}
+				if prob != "" {
+					x.Violation("rot-result-extended-by-caller", how, prob, "none", how)
+				}
+				x.Note("rot-result-extended-by-caller", how, false, false, prob == "")
+			}
+			x.Require("rot-result-extended-by-caller", 0, 0, 4)
 		}
 	}
 	// roots whose validity period does not contain the wall clock (a retired PKI audited later, a PKI provisioned ahead of
